@@ -56,6 +56,18 @@ def sessions(rng, big):
     return out
 
 
+def burst_sessions():
+    """Peers that write N frames back to back and are gone at once: name -> (payloads, pieces)."""
+    out = {}
+    for n in (1, 20, 200):
+        pl = ["m%d \u20ac" % i for i in range(n)]
+        out["burst-%d-small" % n] = (pl, [b"".join(frame(note(i, d), i % 3) for i, d in enumerate(pl))])
+    pl = [("L%d " % i) + "\u00fc" * 2000 for i in range(20)]
+    data = b"".join(frame(note(i, d), i % 3) for i, d in enumerate(pl))
+    out["burst-20-large"] = (pl, [data[:30000], data[30000:]])
+    return out
+
+
 def expected(payloads):
     return [[i, digest(d)] for i, d in enumerate(payloads)]
 
@@ -176,18 +188,17 @@ def run_server_tcp(payloads, pieces, pause, bound=20.0):
         _write_pieces(sock.sendall, pieces, pause)
         sock.shutdown(socket.SHUT_WR)
         sock.settimeout(bound)
-        try:
-            while sock.recv(65536):
-                pass
-        except OSError:
+        while sock.recv(65536):
             pass
+    except OSError:
+        pass                                    # a server that hangs up on us: judged by what it delivered
     finally:
         sock.close()
     th.join(bound)
     return {"received": rec, "ret": res.get("ret", "hang") if not th.is_alive() else "hang"}
 
 
-def run_client(mode, payloads, pieces, pause, bound=20.0):
+def run_client(mode, payloads, pieces, pause, bound=20.0, abrupt=None):
     """mode: client-stdio | client-tcp.  The client is the receiving side."""
     from pygls.lsp.client import LanguageClient
     rec = []
@@ -197,7 +208,7 @@ def run_client(mode, payloads, pieces, pause, bound=20.0):
     if mode == "client-stdio":
         fd, spec = tempfile.mkstemp(prefix="c02_emit_", suffix=".json", dir=os.path.join(core.ROOT, "work", "C02"))
         with os.fdopen(fd, "w") as f:
-            json.dump({"pause": pause, "pieces": [p.hex() for p in pieces]}, f)
+            json.dump({"pause": pause, "pieces": [p.hex() for p in pieces], "exit": abrupt}, f)
     else:
         lsock = socket.socket()
         lsock.bind(("127.0.0.1", 0))
@@ -208,7 +219,8 @@ def run_client(mode, payloads, pieces, pause, bound=20.0):
             try:
                 c, _ = lsock.accept()
                 _write_pieces(c.sendall, pieces, pause)
-                time.sleep(0.3)                  # let the client read everything before the close
+                if abrupt is None:
+                    time.sleep(0.3)              # let the client read everything before the close
                 c.close()
             except OSError:
                 pass
@@ -223,7 +235,8 @@ def run_client(mode, payloads, pieces, pause, bound=20.0):
         else:
             await client.start_tcp("127.0.0.1", port)
         end = time.monotonic() + bound
-        while len(rec) < want and time.monotonic() < end:
+        # everything must have been delivered by the time the client reports that it has stopped
+        while len(rec) < want and not client.stopped and time.monotonic() < end:
             await asyncio.sleep(0.01)
         await asyncio.sleep(0.05)                # anything delivered twice / too much shows up here
         try:
@@ -249,8 +262,10 @@ def run_client(mode, payloads, pieces, pause, bound=20.0):
 ENTRY_POINTS = ("server-stdio-args", "server-stdio-default", "server-sync", "server-tcp", "client-stdio", "client-tcp")
 
 
-def run_entry(mode, payloads, pieces, pause):
+def run_entry(mode, payloads, pieces, pause, abrupt=None):
     logging.disable(logging.CRITICAL)
+    if mode.startswith("client"):
+        return run_client(mode, payloads, pieces, pause, abrupt=abrupt)
     if mode.startswith("server-stdio") or mode == "server-sync":
         return run_server_stdio(mode, payloads, pieces, pause)
     if mode == "server-tcp":
@@ -280,4 +295,31 @@ def check(chk):
                              "impl": {"ret": impl["ret"], "n_received": len(got), "received_head": got[:8]},
                              "S": {"ret": "returns", "n_received": len(payloads), "received_head": S["received"][:8]},
                              "verdict": "violation"})
+    # peers that write N frames and are gone at once (a server process that exits with status 0 / 1 right
+    # after its last flush; a socket closed right after the last byte; a pipe closed at once)
+    bs = burst_sessions()
+    plan = []
+    for j, (name, (payloads, pieces)) in enumerate(bs.items()):
+        for mode in ENTRY_POINTS:
+            if chk.quick:
+                keep = (mode == "client-stdio") or (name in ("burst-200-small", "burst-20-large") and
+                                                    mode in ("client-tcp", "server-tcp", "server-stdio-args", "server-sync"))
+                if not keep:
+                    continue
+            for status in ((0, 1) if (mode == "client-stdio" and not chk.quick) else ((j + 1) % 2,)):
+                plan.append((name, mode, status, payloads, pieces))
+    for name, mode, status, payloads, pieces in plan:
+        n += 1
+        try:
+            impl = run_entry(mode, payloads, pieces, 0.0, abrupt=status)
+        except Exception as e:      # noqa
+            impl = {"received": [], "ret": "harness-error:" + type(e).__name__ + ":" + str(e)[:120]}
+        S = {"received": expected(payloads), "ret": "returns"}
+        if impl != S:
+            got = impl["received"]
+            viol.append({"case": {"k": "entry-point", "entry": mode, "session": name, "peer": "gone-at-once",
+                                  "exit_status": status if mode == "client-stdio" else None},
+                         "impl": {"ret": impl["ret"], "n_received": len(got), "received_tail": got[-3:]},
+                         "S": {"ret": "returns", "n_received": len(payloads), "received_tail": S["received"][-3:]},
+                         "verdict": "violation"})
     return viol, n
